@@ -90,13 +90,15 @@ NoVars == [n \in Names |-> Absent]
 \* venv: the variable environment that sloppy direct eval code adds its var declarations to (the function's, or the global one)
 \* th: the this value (meaningful in the environment of a non-arrow function call; arrows read it through fenv)
 \* wobj: the binding object of an object environment record (9.1.1.2, created by a with statement), 0 for declarative records
-Env(parent, vs, fenv, venv) == [parent |-> parent, vars |-> vs, fenv |-> fenv, venv |-> venv, args |-> <<>>, alen |-> 0, ps |-> <<>>, nmap |-> 0, th |-> Undef, wobj |-> 0]
+Env(parent, vs, fenv, venv) == [parent |-> parent, vars |-> vs, fenv |-> fenv, venv |-> venv, args |-> <<>>, alen |-> 0, ps |-> <<>>, nmap |-> 0, th |-> Undef, wobj |-> 0, fid |-> 0, nt |-> 0]
 \* objects (literals with the keys a / b): [a, b |-> [k: "none" | "data" | "acc", v: the value, g / s: getter / setter function id, 0 = absent]]
 \* objs[1] is the global object (the this value of a sloppy function called without a receiver)
 PropNone == [k |-> "none", v |-> Undef, g |-> 0, s |-> 0]
 DataProp(v) == [k |-> "data", v |-> v, g |-> 0, s |-> 0]
 \* property keys: a, b, and x, y -- the latter coincide with variable names, so that an object can shadow variables in a with statement
-EmptyObj == [a |-> PropNone, b |-> PropNone, x |-> PropNone, y |-> PropNone]
+\* p: the [[Prototype]] among the modelled objects (0: Object.prototype / Function.prototype, which have none of the modelled keys)
+EmptyObj == [a |-> PropNone, b |-> PropNone, x |-> PropNone, y |-> PropNone, p |-> 0]
+ObjWithProto(pr) == [EmptyObj EXCEPT !.p = pr]
 ObjKeys == {"a", "b", "x", "y"}
 Store0 == [envs |-> <<Env(0, NoVars, 1, 1)>>, fns |-> <<>>, objs |-> <<EmptyObj>>, log |-> <<>>, fuel |-> 400]    \* envs[1]: the global environment
 GlobalObj == Obj(1)
@@ -110,9 +112,11 @@ Abrupt(r) == r.c.ty # "normal"
 
 \* 9.1.2.1 GetIdentifierReference: the environment that holds x, 0 = unresolvable
 RECURSIVE Resolve(_, _, _)
+RECURSIVE FindProp(_, _, _)
+FindProp(st, i, key) == IF i = 0 THEN PropNone ELSE IF st.objs[i][key].k # "none" THEN st.objs[i][key] ELSE FindProp(st, st.objs[i].p, key)
 Resolve(st, env, x) == IF env = 0 THEN 0
                        ELSE IF st.envs[env].wobj # 0
-                       THEN (IF x \in ObjKeys /\ st.objs[st.envs[env].wobj][x].k # "none" THEN env ELSE Resolve(st, st.envs[env].parent, x))   \* HasProperty
+                       THEN (IF x \in ObjKeys /\ FindProp(st, st.envs[env].wobj, x).k # "none" THEN env ELSE Resolve(st, st.envs[env].parent, x))   \* HasProperty
                        ELSE IF st.envs[env].vars[x].s # "absent" THEN env ELSE Resolve(st, st.envs[env].parent, x)
 NewWithEnv(st, parent, w) == [st EXCEPT !.envs = Append(@, [Env(parent, NoVars, st.envs[parent].fenv, st.envs[parent].venv) EXCEPT !.wobj = w])]
 
@@ -120,9 +124,10 @@ NewEnv(st, parent, vs) == [st EXCEPT !.envs = Append(@, Env(parent, vs, st.envs[
 \* the newest environment is a variable environment of its own (function body)
 AsVarEnv(st) == [st EXCEPT !.envs[Len(st.envs)].venv = Len(st.envs)]
 \* the environment of a non-arrow function call: it is its own fenv
-NewFEnv(st, parent, vs, args, ps, nmap, th) ==
+\* fid: the function object whose call this is; nt: new.target (0: an ordinary call)
+NewFEnv(st, parent, vs, args, ps, nmap, th, fid, nt) ==
   [st EXCEPT !.envs = Append(@, [parent |-> parent, vars |-> vs, fenv |-> Len(st.envs) + 1, venv |-> Len(st.envs) + 1, args |-> args,
-                                  alen |-> Len(args), ps |-> ps, nmap |-> nmap, th |-> th, wobj |-> 0])]
+                                  alen |-> Len(args), ps |-> ps, nmap |-> nmap, th |-> th, wobj |-> 0, fid |-> fid, nt |-> nt])]
 Top(st) == Len(st.envs)
 SetB(st, env, x, b) == [st EXCEPT !.envs[env].vars[x] = b]
 Init(v, m) == [s |-> "init", v |-> v, m |-> m]
@@ -142,7 +147,7 @@ VarNames(s) == CASE s.t = "var" -> {s.x}
                  [] s.t = "case" -> VarNamesL(s.k, 2)
                  [] OTHER -> {}
 VarNamesL(l, i) == IF i > Len(l) THEN {} ELSE VarNames(l[i]) \cup VarNamesL(l, i + 1)
-LexDecls(l) == {i \in 1..Len(l) : l[i].t \in {"let", "const", "letp", "constp"}}
+LexDecls(l) == {i \in 1..Len(l) : l[i].t \in {"let", "const", "letp", "constp", "classd"}}
 DeclTargets(d) == IF d.t \in {"letp", "constp"} THEN PatTargets(d.pat) ELSE {d.x}
 FDecls(l) == {i \in 1..Len(l) : l[i].t = "fdecl"}
 \* a fresh declarative environment with the lexical declarations of the list in their temporal dead zone
@@ -152,12 +157,14 @@ LexVars(l, base) == [n \in Names |-> IF \E i \in LexDecls(l) : n \in DeclTargets
 
 -----------------------------------------------------------------------------
 RECURSIVE EvalE(_, _, _, _), EvalS(_, _, _, _), EvalL(_, _, _, _, _), EvalArgs(_, _, _, _, _, _), CallFn(_, _, _, _),
-          EvalBlock(_, _, _, _), ForLoop(_, _, _, _, _), EvalProps(_, _, _, _, _, _), GetV(_, _, _), PutV(_, _, _, _, _), GetRef(_, _, _), PutRef(_, _, _, _, _), BindPat(_, _, _, _, _, _, _), HoistF(_, _, _, _, _), BindParams(_, _, _, _, _, _),
+          EvalBlock(_, _, _, _), ForLoop(_, _, _, _, _), EvalProps(_, _, _, _, _, _), GetV(_, _, _), PutV(_, _, _, _, _), GetRef(_, _, _), PutRef(_, _, _, _, _), RunFn(_, _, _, _, _), Construct(_, _, _, _), MkClass(_, _, _), DefMembers(_, _, _, _, _, _), BindPat(_, _, _, _, _, _, _), HoistF(_, _, _, _, _), BindParams(_, _, _, _, _, _),
           FindCase(_, _, _, _, _, _), RunCases(_, _, _, _, _), ForOf(_, _, _, _, _, _)
 
 \* closures: [p: parameter names, body: statement list, env, kind: "arrow" | "func" | "named", name, strict]
 MkFn(st, e, env, strict) ==
-  LET cl == [p |-> e.p, d |-> e.d, pp |-> e.pp, body |-> e.k, env |-> env, kind |-> e.kind, name |-> e.x, strict |-> strict \/ e.s = 1]
+  \* so / po: the objects holding a class constructor's static members / its prototype property; par: the superclass constructor; der: derived
+  LET cl == [p |-> e.p, d |-> e.d, pp |-> e.pp, body |-> e.k, env |-> env, kind |-> e.kind, name |-> e.x, strict |-> strict \/ e.s = 1,
+             so |-> 0, po |-> 0, par |-> 0, der |-> FALSE]
   IN [st |-> [st EXCEPT !.fns = Append(@, cl)], id |-> Len(st.fns) + 1]
 
 EvalE(e, env, st, sm) ==
@@ -239,18 +246,28 @@ EvalE(e, env, st, sm) ==
                                    IF Abrupt(as.r) THEN as.r
                                    ELSE IF f.c.v.t # "fn" THEN Thr(as.r.st, TypeErr)
                                    ELSE CallFn(as.r.st, f.c.v.v, as.vals, o.c.v))
-    [] e.t = "this" -> Ok(st, st.envs[st.envs[env].fenv].th)
+    [] e.t = "this" -> (LET th == st.envs[st.envs[env].fenv].th IN IF th.t = "tdz" THEN Thr(st, RefErr) ELSE Ok(st, th))
+    [] e.t = "classe" -> MkClass(e, env, st)
+    \* 13.3.7.1 SuperCall: arguments, Construct(parent, args, new.target), then BindThisValue (a second super() constructs again and
+    \* only then fails with a ReferenceError)
+    [] e.t = "supercall" ->
+         (LET fe == st.envs[env].fenv
+              as == IF e.spread = 1 THEN [r |-> Ok(st, Undef), vals |-> st.envs[fe].args] ELSE EvalArgs(e.k, 1, env, st, sm, <<>>)
+          IN IF Abrupt(as.r) THEN as.r
+             ELSE IF as.r.st.envs[fe].fid = 0 \/ as.r.st.fns[as.r.st.envs[fe].fid].par = 0 THEN Thr(as.r.st, Err(7777))     \* (only generated in derived constructors)
+             ELSE LET F == as.r.st.envs[fe]
+                      r == Construct(as.r.st, as.r.st.fns[F.fid].par, as.vals, F.nt)
+                  IN IF Abrupt(r) THEN r
+                     ELSE IF r.st.envs[fe].th.t # "tdz" THEN Thr(r.st, RefErr)
+                     ELSE Ok([r.st EXCEPT !.envs[fe].th = r.c.v], r.c.v))
     \* 13.3.5 new: callee, arguments, IsConstructor (arrows and accessor functions are not), 10.2.2 [[Construct]] of an ordinary
     \* function: a fresh object is this; an object returned by the body replaces it
     [] e.t = "new" -> (LET f == EvalE(e.k[1], env, st, sm) IN
                        IF Abrupt(f) THEN f
                        ELSE LET as == EvalArgs(e.k, 2, env, f.st, sm, <<>>) IN
                             IF Abrupt(as.r) THEN as.r
-                            ELSE IF f.c.v.t # "fn" \/ as.r.st.fns[f.c.v.v].kind \notin {"func", "named"} THEN Thr(as.r.st, TypeErr)
-                            ELSE LET st1 == [as.r.st EXCEPT !.objs = Append(@, EmptyObj)]
-                                     o == Obj(Len(st1.objs))
-                                     r == CallFn(st1, f.c.v.v, as.vals, o)
-                                 IN IF Abrupt(r) THEN r ELSE IF r.c.v.t = "obj" THEN r ELSE Ok(r.st, o))
+                            ELSE IF f.c.v.t # "fn" \/ as.r.st.fns[f.c.v.v].kind \notin {"func", "named", "class"} THEN Thr(as.r.st, TypeErr)
+                            ELSE Construct(as.r.st, f.c.v.v, as.vals, f.c.v.v))
     \* 13.15.2 assignment to a property reference: base, right-hand side, PutValue (ToObject(base) fails only now)
     [] e.t = "mset" -> (LET o == EvalE(e.k[1], env, st, sm) IN
                         IF Abrupt(o) THEN o
@@ -328,13 +345,15 @@ EvalProps(k, i, env, st, sm, rec) ==
             IF Abrupt(v) THEN [r |-> v, rec |-> rec]
             ELSE EvalProps(k, i + 1, env, v.st, sm, [rec EXCEPT ![pr.x] = DataProp(v.c.v)])
 
+\* the modelled object behind a value: an object, or the static side of a class constructor
+ObjOf(st, v) == IF v.t = "obj" THEN v.v ELSE IF v.t = "fn" THEN st.fns[v.v].so ELSE 0
 \* 7.3.3 GetV: ToObject(undefined) throws; the keys a / b exist on object literals only; a getter runs
 GetV(st, v, key) ==
   IF v.t = "undef" THEN Thr(st, TypeErr)
-  ELSE IF v.t # "obj" THEN Ok(st, Undef)
+  ELSE IF ObjOf(st, v) = 0 THEN Ok(st, Undef)
   \* (the properties x / y of the global object are the global variables of those names: that identification is not modelled)
   ELSE IF v = GlobalObj /\ key \in {"x", "y"} THEN Thr(st, Err(7777))
-  ELSE LET pr == st.objs[v.v][key] IN
+  ELSE LET pr == FindProp(st, ObjOf(st, v), key) IN
        IF pr.k = "none" THEN Ok(st, Undef) ELSE IF pr.k = "data" THEN Ok(st, pr.v)
        ELSE IF pr.g = 0 THEN Ok(st, Undef) ELSE CallFn(st, pr.g, <<>>, v)
 
@@ -342,13 +361,14 @@ GetV(st, v, key) ==
 \* take a property (strict: TypeError); functions and errors as bases are outside the model
 PutV(st, b, key, v, strict) ==
   IF b.t = "undef" THEN Thr(st, TypeErr)
-  ELSE IF b.t \in {"fn", "err"} THEN Thr(st, Err(7777))
-  ELSE IF b.t # "obj" THEN (IF strict THEN Thr(st, TypeErr) ELSE Ok(st, v))
+  ELSE IF b.t = "err" \/ (b.t = "fn" /\ ObjOf(st, b) = 0) THEN Thr(st, Err(7777))
+  ELSE IF b.t \notin {"obj", "fn"} THEN (IF strict THEN Thr(st, TypeErr) ELSE Ok(st, v))
   ELSE IF b = GlobalObj /\ key \in {"x", "y"} THEN Thr(st, Err(7777))
-  ELSE LET pr == st.objs[b.v][key] IN
-       IF pr.k \in {"none", "data"} THEN Ok([st EXCEPT !.objs[b.v][key] = DataProp(v)], v)
-       ELSE IF pr.s = 0 THEN (IF strict THEN Thr(st, TypeErr) ELSE Ok(st, v))
-       ELSE LET c == CallFn(st, pr.s, <<v>>, b) IN IF Abrupt(c) THEN c ELSE Ok(c.st, v)
+  ELSE LET i == ObjOf(st, b)
+           pr == FindProp(st, i, key)            \* 10.1.9.2 OrdinarySetWithOwnDescriptor: an inherited accessor takes the write
+       IN IF pr.k \in {"none", "data"} THEN Ok([st EXCEPT !.objs[i][key] = DataProp(v)], v)
+          ELSE IF pr.s = 0 THEN (IF strict THEN Thr(st, TypeErr) ELSE Ok(st, v))
+          ELSE LET c == CallFn(st, pr.s, <<v>>, b) IN IF Abrupt(c) THEN c ELSE Ok(c.st, v)
 
 \* 8.6.2 / 14.3.3 BindingInitialization and 13.15.5.x for a pattern  pat = [t: "opat" | "apat", k: elements [x: target, key | n, k: <<default>>]]
 \* against a value (an array pattern is matched against the list of element values of an array literal).  mode: "let" / "const" /
@@ -396,10 +416,69 @@ BindParams(cl, i, args, penv, st, sm) ==
           THEN LET b == BindPat(cl.pp[i], 1, r.c.v, penv, r.st, sm, "param") IN IF Abrupt(b) THEN b ELSE BindParams(cl, i + 1, args, penv, b.st, sm)
           ELSE BindParams(cl, i + 1, args, penv, SetB(r.st, penv, cl.p[i], Init(r.c.v, "mut")), sm)
 
+\* 15.7.14 ClassDefinitionEvaluation (reduced): e = [x: name or "", ext: <<heritage expression>>, ctor: <<function node>>,
+\* k: members [x: key, kind: "m" | "get" | "set", st: 1 static, k: <<function node>>]]. Everything inside is strict mode code.
+DefMembers(k, i, cenv, st, po, so) ==
+  IF i > Len(k) THEN st
+  ELSE LET mb == k[i]
+           tgt == IF mb.st = 1 THEN so ELSE po
+           m == MkFn(st, [mb.k[1] EXCEPT !.kind = IF mb.kind = "m" THEN "meth" ELSE "acc"], cenv, TRUE)
+           old == m.st.objs[tgt][mb.x]
+           pr == IF mb.kind = "m" THEN DataProp(Fn(m.id))
+                 ELSE [k |-> "acc", v |-> Undef, g |-> IF mb.kind = "get" THEN m.id ELSE IF old.k = "acc" THEN old.g ELSE 0,
+                                                 s |-> IF mb.kind = "set" THEN m.id ELSE IF old.k = "acc" THEN old.s ELSE 0]
+       IN DefMembers(k, i + 1, cenv, [m.st EXCEPT !.objs[tgt][mb.x] = pr], po, so)
+MkClass(e, env, st) ==
+  LET st1 == IF e.x # "" THEN NewEnv(st, env, [NoVars EXCEPT ![e.x] = TDZ("const")]) ELSE st
+      cenv == IF e.x # "" THEN Top(st1) ELSE env
+      h == IF Len(e.ext) = 0 THEN Ok(st1, Undef) ELSE EvalE(e.ext[1], cenv, st1, TRUE)
+  IN IF Abrupt(h) THEN h
+     ELSE IF Len(e.ext) > 0 /\ h.c.v.t # "fn" THEN Thr(h.st, TypeErr)                                       \* not a constructor
+     ELSE IF Len(e.ext) > 0 /\ h.st.fns[h.c.v.v].kind \in {"arrow", "meth", "acc"} THEN Thr(h.st, TypeErr)
+     ELSE IF Len(e.ext) > 0 /\ h.st.fns[h.c.v.v].kind # "class" THEN Thr(h.st, Err(7777))                   \* (prototype objects of plain functions: not modelled)
+     ELSE LET der == Len(e.ext) > 0
+              par == IF der THEN h.c.v.v ELSE 0
+              st2 == [h.st EXCEPT !.objs = @ \o <<ObjWithProto(IF der THEN h.st.fns[par].po ELSE 0), ObjWithProto(IF der THEN h.st.fns[par].so ELSE 0)>>]
+              po == Len(st2.objs) - 1
+              so == Len(st2.objs)
+              cn == IF Len(e.ctor) > 0 THEN e.ctor[1]
+                    ELSE [p |-> <<>>, d |-> <<>>, pp |-> <<>>, x |-> "", s |-> 1,
+                          k |-> IF der THEN << [t |-> "expr", k |-> << [t |-> "supercall", spread |-> 1, k |-> <<>>] >>] >> ELSE <<>>]
+              cl == [p |-> cn.p, d |-> cn.d, pp |-> cn.pp, body |-> cn.k, env |-> cenv, kind |-> "class", name |-> e.x, strict |-> TRUE,
+                     so |-> so, po |-> po, par |-> par, der |-> der]
+              st3 == [st2 EXCEPT !.fns = Append(@, cl)]
+              id == Len(st3.fns)
+              st4 == DefMembers(e.k, 1, cenv, st3, po, so)
+          IN Ok(IF e.x # "" THEN SetB(st4, cenv, e.x, Init(Fn(id), "const")) ELSE st4, Fn(id))
+
+\* 10.2.1 [[Call]]: a class constructor cannot be called; 10.2.1.2 OrdinaryCallBindThis: sloppy functions see the global object
 CallFn(st0, id, args, tv) ==
-  LET cl == st0.fns[id]
-      \* 10.2.1.2 OrdinaryCallBindThis: sloppy functions see the global object instead of undefined
-      th == IF cl.strict \/ tv.t # "undef" THEN tv ELSE GlobalObj IN
+  LET cl == st0.fns[id] IN
+  IF cl.kind = "class" THEN Thr(st0, TypeErr)
+  ELSE RunFn(st0, id, args, IF cl.strict \/ tv.t # "undef" THEN tv ELSE GlobalObj, 0)
+
+\* 10.2.2 [[Construct]] with new.target nt. Ordinary functions and base classes: a fresh object (prototype: new.target's prototype
+\* property for classes) is this; an object returned by the body replaces it. Derived classes: this is uninitialised until super()
+\* returns; a returned non-object other than undefined is a TypeError; no this at the end is a ReferenceError.
+TdzThis == [t |-> "tdz", v |-> 0]
+IsObjV(v) == v.t \in {"obj", "fn", "err"}          \* (functions and error objects are objects too)
+Construct(st, id, args, nt) ==
+  LET cl == st.fns[id] IN
+  IF ~cl.der
+  THEN LET st1 == [st EXCEPT !.objs = Append(@, ObjWithProto(IF cl.kind = "class" THEN st.fns[nt].po ELSE 0))]
+           o == Obj(Len(st1.objs))
+           r == RunFn(st1, id, args, o, nt)
+       IN IF Abrupt(r) THEN r ELSE IF IsObjV(r.c.v) THEN r ELSE Ok(r.st, o)
+  ELSE LET fe == Len(st.envs) + 1                       \* (the function environment is the first one the call creates)
+           r == RunFn(st, id, args, TdzThis, nt)
+       IN IF Abrupt(r) THEN r
+          ELSE IF IsObjV(r.c.v) THEN r
+          ELSE IF r.c.v.t # "undef" THEN Thr(r.st, TypeErr)
+          ELSE IF r.st.envs[fe].th.t = "tdz" THEN Thr(r.st, RefErr)
+          ELSE Ok(r.st, r.st.envs[fe].th)
+
+RunFn(st0, id, args, th, nt) ==
+  LET cl == st0.fns[id] IN
   IF st0.fuel <= 0 THEN Thr(st0, Err(7777))
   ELSE
   LET st == [st0 EXCEPT !.fuel = @ - 1]
@@ -416,13 +495,13 @@ CallFn(st0, id, args, tv) ==
                                    THEN (LET i == CHOOSE j \in 1..Len(cl.p) : cl.p[j] = n IN Init(IF i <= Len(args) THEN args[i] ELSE Undef, "mut"))
                                    ELSE IF n \in vnames THEN Init(Undef, "mut") ELSE Absent]
            nmap == IF cl.strict THEN 0 ELSE MinI(Len(cl.p), Len(args))      \* sloppy + simple parameters: mapped arguments object
-           st2 == IF arrow THEN AsVarEnv(NewEnv(st1, outer, LexVars(cl.body, pv))) ELSE NewFEnv(st1, outer, LexVars(cl.body, pv), args, cl.p, nmap, th)
+           st2 == IF arrow THEN AsVarEnv(NewEnv(st1, outer, LexVars(cl.body, pv))) ELSE NewFEnv(st1, outer, LexVars(cl.body, pv), args, cl.p, nmap, th, id, nt)
            fenv == Top(st2)
            st3 == HoistF(cl.body, 1, fenv, st2, cl.strict)
        IN Finish(EvalL(cl.body, 1, fenv, st3, cl.strict))
   ELSE \* parameter scope + separate variable environment (the arguments object is unmapped)
        LET pt == [n \in Names |-> IF IsParam(cl, n) THEN TDZ("mut") ELSE Absent]
-           stP == IF arrow THEN NewEnv(st1, outer, pt) ELSE NewFEnv(st1, outer, pt, args, cl.p, 0, th)
+           stP == IF arrow THEN NewEnv(st1, outer, pt) ELSE NewFEnv(st1, outer, pt, args, cl.p, 0, th, id, nt)
            penv == Top(stP)
            bp == BindParams(cl, 1, args, penv, stP, cl.strict)
        IN IF Abrupt(bp) THEN bp
@@ -509,6 +588,9 @@ EvalS(s, env, st, sm) ==
              ELSE LET b == BindPat(s.pat, 1, rv.c.v, env, rv.st, sm, IF s.t = "letp" THEN "let" ELSE IF s.t = "constp" THEN "const" ELSE "var") IN
                   IF Abrupt(b) THEN b ELSE Ok(b.st, Undef))
     [] s.t = "fdecl" -> Ok(st, Undef)                       \* instantiated on entry
+    \* 15.7.15 class declaration: the outer binding (let-like) is initialised with the constructor
+    [] s.t = "classd" -> (LET c == MkClass(s, env, st) IN
+                          IF Abrupt(c) THEN c ELSE Ok(SetB(c.st, env, s.x, Init(c.c.v, "mut")), Undef))
     \* 14.11 with (sloppy code only): ToObject(value) becomes the binding object of an object environment record; a primitive's wrapper
     \* object has none of the modelled keys
     [] s.t = "with" -> (LET o == EvalE(s.k[1], env, st, sm) IN
